@@ -186,3 +186,41 @@ pub fn long_streams(thorough: bool) -> Vec<(String, Vec<Wire>)> {
 pub fn encode_items(items: &[Wire], pos: BinPos) -> (Vec<u8>, Vec<usize>) {
     crate::mpdref::wire::encode_stream(items, pos)
 }
+
+/// Streams made of several large components in a row (e.g. album art loaded with an 8 KiB binary
+/// limit, or a command list of picture requests): every sequence of 1..=max_len binary payload
+/// sizes from a pool that straddles the receive buffer size and its doublings, as separate
+/// responses and as frames of one list response.
+pub fn multi_binary_streams(max_len: usize) -> Vec<(String, Vec<Wire>)> {
+    const SIZES: &[usize] = &[10, 4090, 5000, 8192, 9000, 17000];
+    let mut seqs: Vec<Vec<usize>> = Vec::new();
+    let mut layer: Vec<Vec<usize>> = vec![vec![]];
+    for _ in 0..max_len {
+        let mut next = Vec::new();
+        for s in &layer {
+            for &z in SIZES {
+                let mut t = s.clone();
+                t.push(z);
+                next.push(t);
+            }
+        }
+        seqs.extend(next.iter().cloned());
+        layer = next;
+    }
+    let frame = |n: usize, tag: usize| AFrame {
+        fields: vec![("size".into(), n.to_string()), ("type".into(), "image/png".into())],
+        binary: Some((0..n).map(|i| ((i * 7 + tag) % 253) as u8).collect()),
+    };
+    let mut out = Vec::new();
+    for s in seqs {
+        if s.iter().all(|&z| z < 4096) && s.len() > 1 {
+            continue;
+        }
+        let frames: Vec<AFrame> = s.iter().enumerate().map(|(i, &z)| frame(z, i)).collect();
+        out.push((format!("responses with binaries {s:?}"), frames.iter().cloned().map(Wire::Single).collect()));
+        if s.len() >= 2 {
+            out.push((format!("one list response with binaries {s:?}"), vec![Wire::List(frames), Wire::Single(AFrame::new(&[("a", "after")]))]));
+        }
+    }
+    out
+}
